@@ -202,7 +202,7 @@ var (
 		{Name: "Punct", Pattern: `[-,()*/+%{};&!=:<>]|\[|\]`},
 		{Name: "Int", Pattern: `\d+`},
 	})
-	microcParser = participle.MustBuild[microcProgram](
+	microcParser = mustBuild[microcProgram](
 		participle.Lexer(microcLex),
 		participle.UseLookahead(2))
 )
